@@ -12,6 +12,7 @@ import (
 	"path/filepath"
 	"strings"
 	"sync"
+	"sync/atomic"
 	"time"
 )
 
@@ -173,6 +174,8 @@ func arr(i, e string) string    { return "(Array " + i + " " + e + ")" }
 // ---------------------------------------------------------------------------
 // Solver portfolio
 
+var queryCounter int64
+
 type SolverResult struct {
 	Status  string // "unsat", "sat", "unknown", "timeout", "error"
 	Solver  string
@@ -186,16 +189,28 @@ type solverDef struct {
 	args func(file string, tmo time.Duration) []string
 }
 
+func z3cfg(bin string, opts ...string) func(string, time.Duration) []string {
+	return func(f string, t time.Duration) []string {
+		a := []string{bin, fmt.Sprintf("-T:%d", int(t.Seconds())+1), fmt.Sprintf("-t:%d", t.Milliseconds())}
+		a = append(a, opts...)
+		return append(a, f)
+	}
+}
+
+// solvers[0] is tried alone first; then all configurations are raced. The extra configurations are not
+// decoration: measured on slice.Chunks, the same query is decided in 0.1 s by one configuration and times out
+// in the others, and which one wins changes from query to query.
 var solvers = []solverDef{
-	{"z3-new", func(f string, t time.Duration) []string {
-		return []string{"z3-new", fmt.Sprintf("-T:%d", int(t.Seconds())+1), fmt.Sprintf("-t:%d", t.Milliseconds()), f}
-	}},
-	{"z3", func(f string, t time.Duration) []string {
-		return []string{"z3", fmt.Sprintf("-T:%d", int(t.Seconds())+1), fmt.Sprintf("-t:%d", t.Milliseconds()), f}
-	}},
+	{"z3-new", z3cfg("z3-new")},
+	{"z3", z3cfg("z3")},
 	{"cvc5", func(f string, t time.Duration) []string {
 		return []string{"cvc5", fmt.Sprintf("--tlimit=%d", t.Milliseconds()), f}
 	}},
+	{"z3-new/arith2", z3cfg("z3-new", "smt.arith.solver=2")},
+	{"z3-new/norelevancy", z3cfg("z3-new", "smt.relevancy=0")},
+	{"z3/norelevancy", z3cfg("z3", "smt.relevancy=0")},
+	{"z3/noautoconfig", z3cfg("z3", "auto_config=false")},
+	{"z3-new/seed3", z3cfg("z3-new", "smt.random_seed=3")},
 }
 
 func runOne(ctx context.Context, sd solverDef, file string, tmo time.Duration) (status, output string, secs float64) {
@@ -227,12 +242,12 @@ func runOne(ctx context.Context, sd solverDef, file string, tmo time.Duration) (
 }
 
 // solve races the solvers on one query. First stage: z3-new alone for a short slice; then all three.
-func solve(dir, name, query string, tmo time.Duration, wantModel bool) SolverResult {
-	file := filepath.Join(dir, sanitize(name)+".smt2")
+func solve(dir, name, query string, tmo time.Duration, stage1Only bool) SolverResult {
+	file := filepath.Join(dir, fmt.Sprintf("q%06d-%s.smt2", atomic.AddInt64(&queryCounter, 1), sanitize(name)))
 	os.WriteFile(file, []byte(query), 0o644)
 	res := SolverResult{All: map[string]string{}}
 	t0 := time.Now()
-	stage1 := 3 * time.Second
+	stage1 := 2 * time.Second
 	if tmo < stage1 {
 		stage1 = tmo
 	}
@@ -247,6 +262,11 @@ func solve(dir, name, query string, tmo time.Duration, wantModel bool) SolverRes
 	}
 	if st == "error" {
 		res.Output = out
+	}
+	if stage1Only {
+		res.Status, res.Seconds = st, secs
+		os.Remove(file)
+		return res
 	}
 	// stage 2: race all
 	ctx, cancel := context.WithCancel(context.Background())
